@@ -7,6 +7,10 @@ import (
 	"image/color"
 
 	"github.com/makiuchi-d/gozxing"
+	"github.com/makiuchi-d/gozxing/aztec"
+	"github.com/makiuchi-d/gozxing/datamatrix"
+	"github.com/makiuchi-d/gozxing/oned"
+	"github.com/makiuchi-d/gozxing/qrcode"
 
 	"verif/kit"
 )
@@ -708,6 +712,18 @@ func globalRowModel(lum []int) ([]bool, bool) {
 	return out, true
 }
 
+func copyMatrix(a *gozxing.BitMatrix) *gozxing.BitMatrix {
+	b, _ := gozxing.NewBitMatrix(a.GetWidth(), a.GetHeight())
+	for y := 0; y < a.GetHeight(); y++ {
+		for x := 0; x < a.GetWidth(); x++ {
+			if a.Get(x, y) {
+				b.Set(x, y)
+			}
+		}
+	}
+	return b
+}
+
 func matrixEq(a, b *gozxing.BitMatrix) bool {
 	if a.GetWidth() != b.GetWidth() || a.GetHeight() != b.GetHeight() {
 		return false
@@ -846,6 +862,18 @@ func (w *world17) binarize(op Op17, s gozxing.LuminanceSource, m *viewModel, pro
 		if e2 != nil || !matrixEq(m1, m2) {
 			return fail("cache", "second GetBlackMatrix differs from the first (err=%v)", e2)
 		}
+		// The bitmap is handed to readers, possibly several in turn. Whatever they
+		// find or fail to find, the bitmap must still answer with the same matrix.
+		if op.V%2 == 0 {
+			before := copyMatrix(m1)
+			rr := kit.NewRNG(op.V ^ 0x5eed)
+			tried := runReaders(bmp, rr)
+			probe("probe.readers_run_over_bitmap")
+			m3, e3 := bmp.GetBlackMatrix()
+			if e3 != nil || !matrixEq(before, m3) {
+				return fail("cache-after-read", "GetBlackMatrix (%s) changed after the bitmap was read by %s (err=%v)", name, tried, e3)
+			}
+		}
 	}
 	// rows of the global method, with a reused array
 	r := kit.NewRNG(op.V)
@@ -919,6 +947,37 @@ func (w *world17) binarize(op Op17, s gozxing.LuminanceSource, m *viewModel, pro
 		}
 	}
 	return nil, false
+}
+
+// runReaders hands the bitmap to one to three readers with a random set of
+// hints. Results, errors and reader panics are not this property's business.
+func runReaders(bmp *gozxing.BinaryBitmap, r *kit.RNG) string {
+	hints := map[gozxing.DecodeHintType]interface{}{}
+	desc := ""
+	for _, h := range []struct {
+		k gozxing.DecodeHintType
+		n string
+	}{{gozxing.DecodeHintType_TRY_HARDER, "TRY_HARDER"}, {gozxing.DecodeHintType_PURE_BARCODE, "PURE_BARCODE"}, {gozxing.DecodeHintType_ALSO_INVERTED, "ALSO_INVERTED"}} {
+		if r.Chance(1, 2) {
+			hints[h.k] = true
+			desc += "+" + h.n
+		}
+	}
+	readers := []struct {
+		n string
+		r gozxing.Reader
+	}{{"qr", qrcode.NewQRCodeReader()}, {"dm", datamatrix.NewDataMatrixReader()}, {"aztec", aztec.NewAztecReader()}, {"upcean", oned.NewMultiFormatUPCEANReader(nil)}, {"code128", oned.NewCode128Reader()}}
+	n := r.Range(1, 3)
+	out := ""
+	for i := 0; i < n; i++ {
+		rd := readers[r.Intn(len(readers))]
+		out += rd.n + desc + " "
+		func() {
+			defer func() { _ = recover() }()
+			_, _ = rd.r.Decode(bmp, hints)
+		}()
+	}
+	return out
 }
 
 // ---------------------------------------------------------------------- generation
